@@ -16,7 +16,7 @@ from .weights import strip
 
 LEVEL_TEXT = ('Static analysis (def-use provenance of the weight, loop structure, homogeneous-degree analysis of accumulated terms). Decides that each '
               'proof\'s equation enters the batch multiplied by its own non-zero weight, that the weight depends on every response scalar of every '
-              'proof in the batch, and that no accumulated term escapes the weight. Does not decide the improbability of cancellation.')
+              'proof in the batch, that no accumulated term escapes the weight, and that no member can bypass the accumulation sites of its iteration on a test of its own data. Does not decide the improbability of cancellation.')
 ASSUMPTIONS = ['merlin transcript RNGs are pseudorandom functions of everything absorbed', 'Scalar arithmetic is a commutative ring (degree analysis)']
 RULE_TEXT = 'one obligation per provenance link, per accumulation site (degree), per structural fact about the draw; non-trivial = decided from a term'
 
